@@ -154,7 +154,9 @@ func c07Expired(c *mon.Case, sp c07Spec) {
 		r.Inject(hx.Cat(id, []byte("in-time-2")))
 		mon.Await(func() bool { return r.Pending() == 0 }, mon.AwaitOpts{Watchdog: 2 * time.Second})
 	}
-	mon.Sleep(3 * T)
+	// "Expired by now" is an upper bound on the library's timer: the pause is 10x the survey time and
+	// the verdict below is canary-calibrated (DESIGN 1.2), else inconclusive.
+	mon.Sleep(10 * T)
 	if variant == "late" {
 		r.Inject(hx.Cat(id, []byte("too-late")))
 		mon.Await(func() bool { return r.Pending() == 0 }, mon.AwaitOpts{Watchdog: 2 * time.Second})
@@ -164,13 +166,18 @@ func c07Expired(c *mon.Case, sp c07Spec) {
 		c.Inconclusive("the pause did not outlast the survey time")
 		return
 	}
+	tRecv := mon.Now()
 	rk := mon.Go("Recv", func() (interface{}, error) { b, e := cx.Recv(); return b, e })
 	if !c.AwaitOrViolate("surveyor/recv-after-expiry-blocked", "Recv issued (first Recv of this survey) well after the survey time "+T.String()+" had elapsed ("+variant+")", rk.Done, mon.AwaitOpts{}) {
 		return
 	}
 	v, err, _ := rk.Result()
 	if err == nil {
-		c.Violate("surveyor/delivered-after-expiry:"+variant, "Recv issued %v after Send returned (survey time %v) returned %q; after expiry it must fail with the protocol-state error", mon.Now()-tSent, T, v)
+		if !mon.UpperBoundExceeded(tRecv-tSent, T) {
+			c.Inconclusive("Recv issued %v after Send returned (survey time %v) returned %q, but the scheduler was too slow during the case (canary worst %v) to say the survey timer must have run", tRecv-tSent, T, v, mon.CanaryWorst())
+			return
+		}
+		c.Violate("surveyor/delivered-after-expiry:"+variant, "Recv issued %v after Send returned (survey time %v) returned %q; after expiry it must fail with the protocol-state error", tRecv-tSent, T, v)
 		return
 	}
 	if err != mangos.ErrProtoState {
